@@ -2,6 +2,7 @@ import Tahoe.Immutable.LemmasRead
 import Tahoe.Immutable.Examples
 import Tahoe.Immutable.LemmasNodeQueue
 import Tahoe.Immutable.LemmasReaders
+import Tahoe.Immutable.LemmasSysRefine
 /-! C04 — random-access and concurrent immutable reads (property theorems; helper lemmas live in
     `Tahoe/Immutable/Lemmas*.lean`).
 
@@ -11,8 +12,8 @@ import Tahoe.Immutable.LemmasReaders
 |---|---|
 | reading any byte range of an immutable file returns exactly that slice of the plaintext | `read_slice` (CHK, through the segment loop: guessed/known segment size, retry, trimming) + `ctr_offset`, `ctr_stream_chunks` (decryption positioned at the offset); `read_slice_literal` (LIT) |
 | … clipped at end-of-file; ranges that start at or past the end return nothing; unspecified size | `read_slice` (`size = none`, any `offset`), `read_slice_literal` (explicit length formula) |
-| several reads of different ranges issued concurrently on the same file object each receive their own correct slice | safety: `concurrent_reads_safe` — for every number of readers and every schedule of segment deliveries (any reader may be handed any segment of the file at any time), every reader's output is a prefix of its own slice, equal to it once nothing remains wanted, and is a function of its own deliveries only; that the node hands out only genuine segments, to exactly the requesters: `concurrent_reads_independent_partial` (queue) + C01 `upload_download` (segment contents).  **Completion** (every live reader eventually gets all its deliveries) is liveness: **monitor only** here, C03/C46 |
-| cancelling or pausing one read does not disturb the others | `concurrent_reads_independent_partial` (1)(2): cancel removes only the canceller's request, pending requests always keep a fetch active; `concurrent_reads_safe` (independence: another reader's events do not change this reader's state; pause/resume change no reader's data state).  That the eventual-send plumbing between `process_blocks` and `_got_segment` is an instance of the schedules quantified over: **correspondence only** (scripted pause/resume/stop from inside and outside `write()` in harness/props/c04.py) |
+| several reads of different ranges issued concurrently on the same file object each receive their own correct slice | safety: `concurrent_reads_safe` — for every number of readers and every schedule of segment deliveries (any reader may be handed any segment of the file at any time), every reader's output is a prefix of its own slice, equal to it once nothing remains wanted, and is a function of its own deliveries only; over the composed node + reads system of C03/C46 (`Tahoe.Fetch.Sys`, any history): `reads_refine` — every byte a read's consumer receives is the byte at that read's own position, decrypting to its plaintext slice; that the node hands out only genuine segments, to exactly the requesters: `concurrent_reads_independent_partial` (queue) + C01 `upload_download` (segment contents).  **Completion** (every live reader eventually gets all its deliveries) is liveness: **monitor only** here, C03/C46 |
+| cancelling or pausing one read does not disturb the others | `concurrent_reads_independent_partial` (1)(2): cancel removes only the canceller's request, pending requests always keep a fetch active; `concurrent_reads_safe` (independence: another reader's events do not change this reader's state; pause/resume change no reader's data state); `reads_refine` (4): pause / resume / turn / stop of any read deliver no byte to anybody, in the composed system where a stop really cancels the request at the node.  That `Tahoe.Fetch.Sys` matches the real plumbing between `process_blocks` and `_got_segment`: correspondence (C46 harness `sys` lines; (scripted pause/resume/stop from inside and outside `write()` in harness/props/c04.py) |
 -/
 namespace Tahoe.C04
 open Tahoe.Immutable Tahoe.Immutable.Sizes Tahoe.Immutable.Pipeline
@@ -135,6 +136,53 @@ example :
       = [⟨7, 0, [1, 2, 3, 4, 5, 6]⟩, ⟨10, 0, [5, 6, 7, 8, 9]⟩] := by
   decide
 
+/-- `reads_refine` — the refinement, safety half, over the C03/C46 composed system `Tahoe.Fetch.Sys` (imported:
+    `DownloadNode` request queue + fetchers + any number of `Segmentation`s; `sysStep` routes every
+    `get_segment` / cancel to the node and every retired request, through the queued `_deliver`, back to the read
+    that still owns it).  For *every* history — any number of reads started at any time (fresh identity,
+    range inside the file), any node events (shares arriving, failing, corrupt, too few: `fetch_failed`,
+    decode errors), wrong segment-size guesses with their BadSegmentNumber/WrongSegment retries, any
+    pause / resume / turn / stop of any read, deliveries in any order — an observer that reads every
+    `consumer.write(start, len)` extent off the ciphertext `ct` sees, for every read `r` of the final state:
+    (1) the bytes its consumer has received so far, followed by the range it still wants, are exactly
+        `ct[off0 : off0+size0]` — every byte received is the byte at that read's own current position;
+    (2) once nothing is wanted any more it has received its whole range;
+    (3) decrypted with the counter positioned at `off0`, what it received is a prefix of the plaintext slice;
+    and (4) pause / resume / turn / stop events of any read deliver no byte to anybody (so they cannot change
+    what other reads receive; with (1) every other read still gets only its own bytes).
+    Liveness (that the deliveries eventually happen) is C03/C46. -/
+theorem reads_refine {Key : Type} (ks : Key → Nat → Block16) (key : Key) (pt : List UInt8)
+    (y0 : Tahoe.Fetch.Sys) (hreads : y0.reads = []) (hfs : y0.filesize = pt.length)
+    (es : List Tahoe.Fetch.SysEv) (hok : SysRefine.HistOk (encrypt ks key pt) y0 es) :
+    (∀ r ∈ (SysRefine.observeRun (encrypt ks key pt) y0 es (fun _ => [])).1.reads,
+      let W := (SysRefine.observeRun (encrypt ks key pt) y0 es (fun _ => [])).2 r.rid
+      W ++ ((encrypt ks key pt).drop r.seg.offset).take r.seg.size = ((encrypt ks key pt).drop r.off0).take r.size0 ∧
+      (r.seg.size = 0 → W = ((encrypt ks key pt).drop r.off0).take r.size0) ∧
+      decryptAt ks key r.off0 W = ((pt.drop r.off0).take r.size0).take W.length) ∧
+    (∀ (y : Tahoe.Fetch.Sys) (W : SysRefine.Received) (rid : Nat),
+      SysRefine.observe (encrypt ks key pt) y (.stop rid) W = W ∧ SysRefine.observe (encrypt ks key pt) y (.pause rid) W = W ∧
+      SysRefine.observe (encrypt ks key pt) y (.resume rid) W = W ∧ SysRefine.observe (encrypt ks key pt) y (.turn rid) W = W) := by
+  refine ⟨fun r hr => ?_, fun y W rid => SysRefine.observe_quiet _ y W rid⟩
+  have hinv := SysRefine.inv_run (encrypt ks key pt) y0.segsize es y0 (fun _ => [])
+    (SysRefine.inv_init _ y0 hreads (by rw [hfs, length_encrypt])) hok
+  obtain ⟨_, hdata⟩ := hinv.good r hr
+  refine ⟨hdata, fun h0 => ?_, ?_⟩
+  · rw [h0] at hdata; simpa using hdata
+  · have hpre := SysRefine.prefix_of_append hdata
+    rw [List.take_take] at hpre
+    generalize (SysRefine.observeRun (encrypt ks key pt) y0 es (fun _ => [])).2 r.rid = W at hpre
+    generalize W.length = L at hpre
+    rw [hpre, decrypt_slice, List.take_take]
+
+/-- a concrete history of the composed system: both reads are started, read 1 is paused from outside, the node
+    fetches segment 0 and hands it to both; read 0 receives bytes 1..3, read 1 (wrong guess) rejects it and,
+    resumed, asks for the right segment -/
+example : SysRefine.HistOk SysRefine.exCt SysRefine.exSys SysRefine.exHist ∧
+    (let fin := SysRefine.observeRun SysRefine.exCt SysRefine.exSys SysRefine.exHist (fun _ => [])
+     fin.1.reads.map (fun r => (r.rid, r.seg.offset, r.seg.size, r.req, fin.2 r.rid)))
+      = [(0, 4, 3, some 2, [1, 2, 3]), (1, 5, 5, some 3, [])] := by
+  decide
+
 /- Full statement (NOT proved; exercised by harness/props/c04.py with up to four scripted readers and
    seeded delivery orders):
      concurrent_reads_independent : for every number m of readers sharing one DownloadNode, every
@@ -142,13 +190,14 @@ example :
      foolscap's eventual-send queue, so a reader may be stopped between `_extract_requests` and
      `_deliver`), and of pause / resume / stop events on any reader, every reader that is not stopped
      finishes with exactly its own slice, and a stopped reader has received a prefix of its slice.
-   Proved: the safety and independence half for every schedule (`concurrent_reads_safe` above, over the
-   over-approximate scheduler "any reader may be handed any genuine segment at any time") and the queue
-   facts below.  Still missing for the full statement: (a) liveness — every live reader is eventually
-   handed the segments it asks for (needs fairness of the eventual-send queue and of the servers: C03/C46);
-   (b) a refinement proof that every execution of the real plumbing (`process_blocks` → `eventually(_deliver)`
-   → `Cancel.active` check → `_got_segment`, `_retry_bad_segment`) is an instance of those schedules with
-   genuine segments — today tied by correspondence only. -/
+   Proved: the safety and independence half — `concurrent_reads_safe` (over the over-approximate scheduler
+   "any reader may be handed any genuine segment at any time") and `reads_refine` (every history of the
+   composed node + reads system of C03/C46 delivers to each read only the bytes at its own position; the
+   callbacks each `Seg` receives are consumer callbacks, failures or *genuine* segments: `ev_is_rev`,
+   `runReader_refines`), and the queue facts below.  Still missing for the full statement: liveness — every
+   live reader is eventually handed the segments it asks for (fairness of the eventual-send queue and of the
+   servers: C03/C46 `no_stuck_state`, `read_never_idle`).  The composed system `Tahoe.Fetch.Sys` itself is tied
+   to the code by the C46 harness, the byte-level reader by harness/props/c04.py (`run_feed`). -/
 
 /-- `concurrent_reads_independent_partial`:
     (1) over every history of `get_segment` / delivery / cancel operations by any number of readers the
